@@ -54,6 +54,56 @@ def set_at(doc, path, val):
     return doc
 
 
+HOLE = '@@HOLE@@'
+
+
+def find_cycle(model, d, maxlen=3):
+    """A way from plain struct d back to itself through struct-typed fields (alias / nullable / one list
+    level allowed): [(field name, 'plain' | 'list', next struct)], or None."""
+    def steps(s):
+        out = []
+        for f in model.all_fields(s):
+            inner, _ = model.unwrap(f.type)
+            via = 'plain'
+            if inner.kind == 'list':
+                inner, _ = model.unwrap(inner.item)
+                via = 'list'
+            if inner.kind != 'ref':
+                continue
+            tgt = model.lookup(inner.ns, inner.name)
+            if isinstance(tgt, Struct) and not tgt.subtypes and model.enum_root(tgt) is None:
+                out.append((f.name, via, tgt))
+        return out
+    if not isinstance(d, Struct) or d.subtypes or model.enum_root(d) is not None:
+        return None
+    frontier = [[st] for st in steps(d)]
+    for _ in range(maxlen):
+        nxt = []
+        for path in frontier:
+            if path[-1][2] is d:
+                return path
+            for st in steps(path[-1][2]):
+                if all(st[2] is not q[2] for q in path):
+                    nxt.append(path + [st])
+        frontier = nxt
+    return None
+
+
+def deep_layer(tape, model, d, cycle):
+    """One turn of the cycle as a value of type d with `inner` (another value of type d) at its end.
+    -> (layer value, inner value, JSON path of the inner document)"""
+    inner = refcodec.gen_value(tape, model, T('ref', ns=d.ns, name=d.name), depth=4)
+    cur = inner
+    path = []
+    owners = [d] + [st[2] for st in cycle[:-1]]
+    for owner, (fname, via, _) in reversed(list(zip(owners, cycle))):
+        v = refcodec.gen_value(tape, model, T('ref', ns=owner.ns, name=owner.name), depth=4)
+        v['f'][fname] = [cur] if via == 'list' else cur
+        path = [fname] + ([0] if via == 'list' else []) + path
+        cur = v
+    return cur, inner, tuple(path)
+
+
 def mutate_structure(tape, doc, model, other_docs):
     """One structural fault at a tape-chosen site.  -> (new doc, kind)"""
     doc = json.loads(json.dumps(doc, default=repr)) if not _has_special(doc) else _deep(doc)
@@ -241,7 +291,8 @@ class C06Engine(Engine):
                    'aliases to nullable types are not generated (python_types treats such fields as required)',
                    'unspecified documents are judged only for "no foreign exception" and "accepted values are valid"']
     expected_probes = ['must_accept', 'must_reject', 'unspecified', 'dialect_delivery', 'byte_damage_not_json',
-                       'byte_damage_still_json', 'garbage_delivery', 'strict_rejection', 'lenient_unknown_ignored']
+                       'byte_damage_still_json', 'garbage_delivery', 'strict_rejection', 'lenient_unknown_ignored',
+                       'deep_accepted']
 
     def prepare(self):
         from .. import runcli  # noqa
@@ -303,7 +354,12 @@ class C06Engine(Engine):
             strict = bool(tape.draw(2))
             entry = tape.choice(['obj', 'json'])
             sender = tape.weighted([(10, 'real'), (20, 'dialect'), (40, 'lossy-struct'), (15, 'lossy-bytes'),
-                                    (15, 'garbage')])
+                                    (15, 'garbage'), (4, 'deep-valid'), (2, 'deep-garbage')])
+            deep = None
+            if sender == 'deep-valid':
+                cyc = find_cycle(model, d)
+                if cyc is None:
+                    sender = 'dialect'
             validator = ver.validator(t)
             fault = '-'
             text = None
@@ -314,6 +370,39 @@ class C06Engine(Engine):
                 elif sender == 'garbage':
                     doc = gen_garbage(tape)
                     bump(res['probes'], 'garbage_delivery')
+                elif sender == 'deep-valid':
+                    # a valid document of a recursive type, nested K turns of the cycle deep (built without
+                    # recursion: one encoded turn with a hole, repeated)
+                    layer, inner, hpath = deep_layer(tape, model, d, cyc)
+                    layer_doc = refcodec.ref_encode(model, t, layer, refcodec.PLAIN)
+                    inner_doc = refcodec.ref_encode(model, t, inner, refcodec.PLAIN)
+                    if get_at(layer_doc, hpath) != inner_doc or \
+                            refcodec.ref_decode(model, t, layer_doc, strict)[0] != 'ok':
+                        # e.g. the list on the cycle demands two items: no one-item turn exists
+                        bump(res['probes'], 'deep_layer_unusable')
+                        continue
+                    K = tape.weighted([(3, 10), (3, 40), (2, 120), (2, 400), (1, 2000)])
+                    holed = set_at(json.loads(json.dumps(layer_doc)), hpath, HOLE)
+                    pre, suf = json.dumps(holed).split(json.dumps(HOLE))
+                    deep = {'K': K, 'turn': len(cyc), 'layer': layer_doc}
+                    if entry == 'json':
+                        text = pre * K + json.dumps(inner_doc) + suf * K
+                        doc = None
+                    else:
+                        doc = inner_doc
+                        for _ in range(K):
+                            doc = set_at(json.loads(json.dumps(holed)), hpath, doc)
+                    fault = 'K%d' % K
+                    bump(res['faults'], 'deep-valid')
+                elif sender == 'deep-garbage':
+                    N = tape.choice([300, 3000, 150000])
+                    o, c = tape.choice([('[', ']'), ('{"a":', '}'), ('{".tag":"a","a":', '}')])
+                    text = o * N + json.dumps(refcodec.ref_encode(model, t, value, refcodec.PLAIN)) + c * N
+                    entry = 'json'
+                    doc = None
+                    deep = {'N': N, 'open': o}
+                    fault = 'N%d' % N
+                    bump(res['faults'], 'deep-garbage')
                 else:
                     dialect = refcodec.PLAIN
                     if sender == 'dialect' or tape.chance(30):
@@ -343,18 +432,23 @@ class C06Engine(Engine):
                 pool_strs.append(json.dumps(doc))
             # ---- the wire --------------------------------------------------------------------
             parsed_ok = True
-            if text is None and entry == 'json':
-                text = json.dumps(doc)
-            if text is not None:
-                try:
-                    doc = json.loads(text)
-                    if sender == 'lossy-bytes':
-                        bump(res['probes'], 'byte_damage_still_json')
-                except ValueError:
-                    parsed_ok = False
-                    bump(res['probes'], 'byte_damage_not_json')
+            if deep is None:
+                if text is None and entry == 'json':
+                    text = json.dumps(doc)
+                if text is not None:
+                    try:
+                        doc = json.loads(text)
+                        if sender == 'lossy-bytes':
+                            bump(res['probes'], 'byte_damage_still_json')
+                    except ValueError:
+                        parsed_ok = False
+                        bump(res['probes'], 'byte_damage_not_json')
             # ---- reference verdict ----------------------------------------------------------------
-            if parsed_ok:
+            if sender == 'deep-valid':
+                verdict, rv = 'ok', None          # by construction: every turn is the valid layer checked above
+            elif sender == 'deep-garbage':
+                verdict, rv = 'unspec', 'nesting only'      # only the kind of failure is judged
+            elif parsed_ok:
                 verdict, rv = refcodec.ref_decode(model, t, doc, strict)
             else:
                 verdict, rv = 'rej', 'not JSON'
@@ -374,7 +468,10 @@ class C06Engine(Engine):
             except Exception as e:   # noqa
                 outcome, exc = 'foreign', e
             res['steps'] += 1
-            wire = text if text is not None else json.dumps(doc, default=repr)
+            if deep is not None:
+                wire = 'deep %s' % json.dumps(deep, default=repr)[:300]
+            else:
+                wire = text if text is not None else json.dumps(doc, default=repr)
             ev.append('%d %s.%s %s %s %s %s -> %s/%s %s' % (di, t.ns, t.name, sender, fault,
                                                             'strict' if strict else 'lenient', entry, verdict,
                                                             outcome, wire[:300]))
@@ -384,6 +481,8 @@ class C06Engine(Engine):
                 res['violations'].append({
                     'class': 'foreign-exception', 'key': '%s@%s' % (type(exc).__name__, runtime_frame(exc)),
                     'detail': '%s: %s | %s' % (type(exc).__name__, str(exc)[:200], ctx)})
+            elif outcome == 'value' and deep is not None:
+                bump(res['probes'], 'deep_accepted')     # reading a deep value back would recurse in the harness
             elif outcome == 'value':
                 # accepted values must be valid for the type
                 try:
@@ -409,7 +508,12 @@ class C06Engine(Engine):
                 if not strict and sender == 'lossy-struct' and 'add-key' in fault and verdict == 'ok':
                     bump(res['probes'], 'lenient_unknown_ignored')
             else:
-                if verdict == 'ok':
+                if verdict == 'ok' and sender == 'deep-valid':
+                    res['violations'].append({'class': 'rejected-must-accept', 'key': 'deep-nesting',
+                                              'detail': 'a valid document of a recursive type, nested %d turns of '
+                                                        'a %d-field cycle deep, was refused: %s | %s' % (
+                                                            deep['K'], deep['turn'], exc, ctx)})
+                elif verdict == 'ok':
                     res['violations'].append({'class': 'rejected-must-accept', 'key': '%s:%s' % (tkind, sender if sender != 'lossy-struct' else _fkey(fault)),
                                               'detail': 'reference: accept but decoder raised %s | %s' % (exc, ctx)})
                 if strict and verdict == 'rej' and 'strict' in str(rv):
